@@ -95,6 +95,16 @@ def decode(data: bytes) -> dict:
     if simple:
         case["sfunc"] = d.pick(["quick", "gated"])
     for _ in range(d.i(2, 14)):
+        if d.p(0.08):
+            # a request and the cancellation of its group in one piece, a flush some time later
+            sidx = d.i(0, case["nsess"] - 1)
+            g = d.pick(["G", "H"])
+            first = f"start 2" if simple else f"apply vt.ctl.hmod.gated --num 2 --group-name {g}"
+            second = "cancel-all" if simple else d.pick([f"cancel-group {g}", "cancel-all"])
+            case["lines"].append({"kind": "valid", "text": first, "s": sidx, "with_next": True})
+            case["lines"].append({"kind": "valid", "text": second, "s": sidx})
+            case["lines"].append({"kind": "blocking", "text": d.pick(["flush", "flush -r", "flush"]), "s": d.i(0, case["nsess"] - 1)})
+            continue
         ln = gen_line(d, table, names)
         ln["s"] = d.i(0, case["nsess"] - 1)
         if d.p(0.1):
